@@ -140,6 +140,8 @@ theorem TInv.kill {c : Cfg} {s : St} (t : TInv c s) : TInv c (kill c s) := by
 theorem TInv.step {c : Cfg} {s : St} (t : TInv c s) (e : Ev) : TInv c (step c s e) := by
   cases e with
   | nodeDone n => exact ⟨t.clean, t.fin⟩
+  | nodeFailed n => exact t
+  | nodeReset n => exact t
   | removeEmpty => exact t.frame (foldRemove_frame (fun a => (c.namesOf a).isEmpty) s.dom s)
   | cacheMap =>
     refine t.shrink (cacheMap_ran c s) (fun d h => cacheMap_disk c s ▸ h) ?_
